@@ -49,7 +49,17 @@ func genCluster(t *rapid.T, p *plan) {
 	for i := 0; i < n; i++ {
 		l := fmt.Sprintf("c.op%d", i)
 		o := cop{Node: rapid.IntRange(0, 2).Draw(t, l+".node"), N: rapid.IntRange(0, 5).Draw(t, l+".n")}
-		switch k := rapid.IntRange(0, 15).Draw(t, l+".kind"); {
+		switch k := rapid.IntRange(0, 17).Draw(t, l+".kind"); {
+		case k == 16:
+			// a slow node: everything sent to it arrives late (up to twice
+			// raft's election timeout), on connections made from now on
+			o.Kind = rapid.SampledFrom([]string{"slow", "slow", "slow-leader"}).Draw(t, l+".wk")
+			o.Ms = rapid.SampledFrom([]int{150, 600, 2000}).Draw(t, l+".lat")
+		case k == 17:
+			// a lossy link: every raft connection to the node is reset after
+			// a few hundred to a few thousand bytes (messages lost in flight)
+			o.Kind = rapid.SampledFrom([]string{"flaky", "flaky", "flaky-leader"}).Draw(t, l+".fk")
+			o.Ms = rapid.SampledFrom([]int{150, 700, 3000}).Draw(t, l+".bytes")
 		case k < 6:
 			o.Kind = "createdb"
 		case k < 7:
@@ -91,6 +101,8 @@ type mcluster struct {
 	nodes    []*mnode
 	mu       sync.Mutex
 	isolated map[string]bool // addresses that refuse incoming connections
+	slow     map[string]time.Duration // addresses whose incoming connections deliver late
+	flaky    map[string]int64         // raft addresses whose incoming connections are reset after that many bytes
 	cut      map[string]bool // raft addresses whose raft links to and from everybody else are cut
 	hc       *http.Client
 }
@@ -149,7 +161,7 @@ func (c *mcluster) get(url string) ([]byte, int, error) {
 
 func execCluster(run *core.Run, p *plan) {
 	nw := simnet.New()
-	c := &mcluster{run: run, nw: nw, isolated: map[string]bool{}, cut: map[string]bool{}}
+	c := &mcluster{run: run, nw: nw, isolated: map[string]bool{}, cut: map[string]bool{}, slow: map[string]time.Duration{}, flaky: map[string]int64{}}
 	verifhook.SetFault(func(ev string, args ...interface{}) error {
 		if ev != "meta.raft.dial" || len(args) < 2 {
 			return nil
@@ -188,6 +200,12 @@ func execCluster(run *core.Run, p *plan) {
 			// one snapshot within one (standing) millisecond collide - an
 			// artefact no real network produces.
 			pol.Latency = time.Millisecond
+		}
+		if d := c.slow[addr]; d > 0 {
+			pol.Latency = d
+		}
+		if b := c.flaky[addr]; b > 0 {
+			pol.ResetC2S = b
 		}
 		return pol
 	}
@@ -329,7 +347,7 @@ func execCluster(run *core.Run, p *plan) {
 	down := func() int {
 		k := 0
 		for _, n := range c.nodes {
-			if !n.up || c.isolated[n.http] || c.cut[n.raft] {
+			if !n.up || c.isolated[n.http] || c.cut[n.raft] || c.slow[n.raft] > 0 || c.flaky[n.raft] > 0 {
 				k++
 			}
 		}
@@ -342,7 +360,7 @@ func execCluster(run *core.Run, p *plan) {
 		core.Progress()
 		run.Op(o.Kind)
 		n := c.nodes[o.Node]
-		if o.Kind == "stop-leader" || o.Kind == "isolate-leader" || o.Kind == "partition-leader" {
+		if o.Kind == "stop-leader" || o.Kind == "isolate-leader" || o.Kind == "partition-leader" || o.Kind == "slow-leader" || o.Kind == "flaky-leader" {
 			// the node the others currently follow
 			for _, m := range c.nodes {
 				if !m.up {
@@ -477,12 +495,33 @@ func execCluster(run *core.Run, p *plan) {
 			k := nw.ResetWhere(func(remote string) bool { return strings.HasSuffix(remote, ":8089") })
 			run.Fault("meta-node-partitioned")
 			run.Logf("op%d raft links of meta node %d cut (%d connections reset)", i, n.id, k)
+		case "slow":
+			c.mu.Lock()
+			c.slow[n.raft], c.slow[n.http] = time.Duration(o.Ms)*time.Millisecond, time.Duration(o.Ms)*time.Millisecond
+			c.mu.Unlock()
+			k := nw.ResetWhere(func(remote string) bool { return remote == n.raft })
+			run.Fault("meta-node-slow")
+			run.Logf("op%d everything sent to meta node %d takes %d ms from now on (%d connections reset)", i, n.id, o.Ms, k)
+		case "flaky":
+			c.mu.Lock()
+			c.flaky[n.raft] = int64(o.Ms)
+			c.mu.Unlock()
+			k := nw.ResetWhere(func(remote string) bool { return remote == n.raft })
+			run.Fault("meta-node-lossy-link")
+			run.Logf("op%d raft connections to meta node %d are reset after %d bytes from now on (%d connections reset)", i, n.id, o.Ms, k)
 		case "heal":
 			c.mu.Lock()
 			delete(c.isolated, n.http)
 			delete(c.isolated, n.raft)
 			delete(c.cut, n.raft)
+			wasSlow := c.slow[n.raft] > 0
+			delete(c.slow, n.raft)
+			delete(c.slow, n.http)
+			delete(c.flaky, n.raft)
 			c.mu.Unlock()
+			if wasSlow {
+				nw.ResetWhere(func(remote string) bool { return remote == n.raft })
+			}
 		}
 	}
 	if run.Failed() {
@@ -492,7 +531,14 @@ func execCluster(run *core.Run, p *plan) {
 	c.mu.Lock()
 	c.isolated = map[string]bool{}
 	c.cut = map[string]bool{}
+	wasSlow := c.slow
+	c.slow = map[string]time.Duration{}
+	c.flaky = map[string]int64{}
 	c.mu.Unlock()
+	if len(wasSlow) > 0 {
+		// connections made while a node was slow stay slow: a healed network starts over
+		nw.ResetWhere(func(remote string) bool { return wasSlow[remote] > 0 })
+	}
 	for _, n := range c.nodes {
 		if !n.up {
 			if err := c.start(n); err != nil {
@@ -602,7 +648,7 @@ func execCluster(run *core.Run, p *plan) {
 		}
 	}
 	run.Probe("cluster-converged")
-	run.NonTrivial = run.Faults["meta-node-stopped"]+run.Faults["meta-node-unreachable"]+run.Faults["meta-node-partitioned"] > 0
+	run.NonTrivial = run.Faults["meta-node-stopped"]+run.Faults["meta-node-unreachable"]+run.Faults["meta-node-partitioned"]+run.Faults["meta-node-slow"]+run.Faults["meta-node-lossy-link"] > 0
 	run.Digest = fmt.Sprintf("cluster/%d", len(p.Cluster))
 }
 
